@@ -170,10 +170,12 @@ Proof.
   assert (Hint : g s_int = s_int) by (apply g_init; vm_compute; discriminate).
   unfold initialized, rn_gtable. cbn [map].
   rewrite !rn_proc_entry;
-    try (cbn [map]; rewrite ?rn_int_param; [reflexivity | vm_compute; discriminate ..]);
-    try (vm_compute; discriminate).
-  cbn [fst snd rn_gentry rn_id new_ident ten_name ten_ty ten_range ten_doc id_val id_info option_map rn_dtype].
-  rewrite Hint. reflexivity.
+    [| match goal with
+       | |- lookup initialized _ <> None => vm_compute; discriminate
+       | |- map _ _ = _ => cbn [map]; rewrite ?rn_int_param by (vm_compute; discriminate); reflexivity
+       end ..].
+  cbn [fst snd rn_gentry ten_name ten_ty ten_range ten_doc option_map rn_dtype].
+  unfold rn_id, new_ident. cbn [id_val id_info]. rewrite Hint. reflexivity.
 Qed.
 
 Lemma gt_ok_init : gt_ok initialized.
@@ -361,7 +363,8 @@ Proof.
     destruct (wf_gdecl_rn _ _ _ _ Hd HG Hok1) as [Hd' [Hu He]].
     destruct (IH (gt_ok_snoc _ _ HG Hu He) Hok2) as [IHw IHk].
     split; [|now rewrite <- app_assoc in IHk].
-    rewrite rnG_app in IHw. cbn [map fst snd]. unfold rn_gtable at 3. cbn [map].
+    rewrite rnG_app in IHw. cbn [map fst snd].
+    change (rnG (ke :: es)) with ((g (fst ke), rn_gentry g v phi (snd ke)) :: rnG es).
     apply WFG_cons; [exact Hd' | exact IHw].
 Qed.
 
